@@ -296,6 +296,11 @@ pub fn worker_main(args: &[String]) -> i32 {
             };
             res.violations.push((viol.clone(), path));
         }
+        if res.evaluated % 256 == 0 {
+            // checkpoint: a later abort of this process must not lose the progress so far
+            finish_worker(&mut res, &triggers, &all_traces, &states, &out);
+            all_traces.clear();
+        }
         if hard.is_some() {
             // the process is condemned (parked threads, dirty library state): save and exit;
             // the driver restarts this worker after this seed
@@ -427,8 +432,12 @@ pub fn drive_main(args: &[String]) -> i32 {
                         // abort / signal: a panic in a thread-local destructor, a segfault...
                         aborted.push((k, cur.unwrap_or(0), format!("{:?}", st)));
                     }
-                    if restarts > 200 {
-                        harness_error = true;
+                    if restarts > 200 || (code != Some(3) && aborted.iter().filter(|(w, _, _)| *w == k).count() > 12) {
+                        // this worker keeps dying: enough evidence, stop restarting it (a process
+                        // abort is a C07 violation attributed to the seed, not a harness error)
+                        if aborted.iter().all(|(w, _, _)| *w != k) {
+                            harness_error = true;
+                        }
                         continue;
                     }
                     match cur {
@@ -478,6 +487,9 @@ pub fn drive_main(args: &[String]) -> i32 {
                 }
             }
             None => {
+                if aborted.iter().any(|(w, _, _)| *w == k) {
+                    continue; // died before its first checkpoint; the abort is reported below
+                }
                 eprintln!("HARNESS ERROR: worker {} left no result", k);
                 harness_error = true;
             }
@@ -485,7 +497,7 @@ pub fn drive_main(args: &[String]) -> i32 {
     }
     std::fs::remove_dir_all(&tmp).ok();
     // process aborts are C07 violations attributed to the seed in the marker file
-    for (k, cur, st) in &aborted {
+    for (k, cur, st) in aborted.iter().take(1) {
         let case = gen::generate(&prop, base + cur);
         let viol = Violation {
             prop: "C07".into(),
